@@ -112,7 +112,7 @@ def lemma_job(job_id, st, rlimit):
                 eng_.oblige(f"{qual}/value scales", scaled(w[1]) == factor * w[1], kind="lemma")
             else:
                 raise Unsupported("spec result kind")
-            eng_.obligations.append(Obligation(f"{qual}/cover", list(eng_.run.pc), z3.BoolVal(False), "cover", eng_.fn, tuple(eng_.run.taken)))
+            eng_.obligations.append(Obligation(f"{qual}/cover", list(eng_.run.defs) + list(eng_.run.pc), z3.BoolVal(False), "cover", eng_.fn, tuple(eng_.run.taken)))
         except Unsupported as e:
             eng_.undecided(f"{qual}/unsupported", str(e))
     eng.explore(thunk, qual)
@@ -270,7 +270,7 @@ def chain_job(job_id, st, rlimit):
                         z3.ForAll([p, k], z3.Implies(z3.And(0 <= p, p < Ln, Ls(p) < k, k < n), ID(k) != ID(Ls(p)))))
             eng_.oblige(f"{QN_OPT}/order of the kept occurrences is the input order", z3.ForAll([p, q], z3.Implies(z3.And(0 <= p, p < q, q < Ln), Ls(p) < Ls(q))))
             eng_.oblige(f"{QN_OPT}/only elements of the input are returned", z3.ForAll([p], z3.Implies(z3.And(0 <= p, p < Ln), z3.And(0 <= Ls(p), Ls(p) < n))))
-            eng_.obligations.append(Obligation(f"{QN_OPT}/cover", list(eng_.run.pc), z3.BoolVal(False), "cover", eng_.fn, tuple(eng_.run.taken)))
+            eng_.obligations.append(Obligation(f"{QN_OPT}/cover", list(eng_.run.defs) + list(eng_.run.pc), z3.BoolVal(False), "cover", eng_.fn, tuple(eng_.run.taken)))
         except Unsupported as e:
             eng_.undecided(f"{QN_OPT}/unsupported", str(e))
     eng.explore(thunk, QN_OPT)
@@ -320,7 +320,7 @@ def timebuilder_job(job_id, st, rlimit):
                 eng_.oblige(f"{q}/C20: the list is reproduced element for element, in the requested unit",
                             z3.Implies(v.inidx(TT), v.val(TT) == at((TT - s0) / HOUR) * unit.f))
                 eng_.oblige(f"{q}/C20: requested unit", rv(res.unit.factor) == unit.f)
-                eng_.obligations.append(Obligation(f"{q}/cover", list(eng_.run.pc), z3.BoolVal(False), "cover", eng_.fn, tuple(eng_.run.taken)))
+                eng_.obligations.append(Obligation(f"{q}/cover", list(eng_.run.defs) + list(eng_.run.pc), z3.BoolVal(False), "cover", eng_.fn, tuple(eng_.run.taken)))
             except Unsupported as e:
                 eng_.undecided(f"{TB + which}/unsupported", str(e))
         eng.explore(thunk, TB + which)
@@ -376,7 +376,7 @@ def timebuilder_job(job_id, st, rlimit):
                         z3.Implies(v.inidx(TT), v.val(TT) == z3.If(match(TT), vol, z3.RealVal(0)) * unit.f))
             eng_.oblige(f"{q}/C20: requested unit", rv(res.value.unit.factor) == unit.f)
             eng_.oblige(f"{q}/label", res.label.nonempty)
-            eng_.obligations.append(Obligation(f"{q}/cover", list(eng_.run.pc), z3.BoolVal(False), "cover", eng_.fn, tuple(eng_.run.taken)))
+            eng_.obligations.append(Obligation(f"{q}/cover", list(eng_.run.defs) + list(eng_.run.pc), z3.BoolVal(False), "cover", eng_.fn, tuple(eng_.run.taken)))
         except Unsupported as e:
             eng_.undecided(f"{case}/unsupported", str(e))
     eng.explore(thunk, case)
